@@ -1,4 +1,4 @@
-package engine
+package sched
 
 import (
 	"os"
@@ -9,14 +9,14 @@ import (
 	"time"
 )
 
-// WaitDone waits for done and returns true when it is closed. It returns false only when the process is
+// waitDone (a copy of verif/engine.WaitDone; this package is injected into the go-mc module and cannot import it) waits for done and returns true when it is closed. It returns false only when the process is
 // STALLED: for `quiet` consecutive one-second observations none of its OS threads other than the observer was
 // running or runnable and it consumed next to no CPU time, i.e. every goroutine that matters is blocked for good
 // (a deadlock, a lost wake-up, a read that will never be answered). It is not a wall-clock oracle: a starved or
 // stopped process and a loaded machine only make the wait longer, because a thread that wants a processor is
 // runnable however long it has to queue for one, and an observation that itself arrives late is discarded.
 // A computation that spins forever is not a stall; callers bound that with their own (reported) deadline.
-func WaitDone(done <-chan struct{}, quiet int) bool {
+func waitDone(done <-chan struct{}, quiet int) bool {
 	select {
 	case <-done:
 		return true
